@@ -427,3 +427,26 @@ _ROUND6 = {
 }
 for _k, _v in _ROUND6.items():
     PROPS[_k]["rule"] += " " + _v
+
+# Forms added after the seventh set (DESIGN.md section 11.1, round 7)
+_ROUND7 = {
+    "C01": "Also: IPv6 service addresses; the operator pins an instance (route del <svc> + the registry's own line for one instance, letter for letter).",
+    "C02": "Also: the pipeline histories with odd registrations (incl. redirect options without their second half) once more.",
+    "C03": "Also: host names and addresses that end in the digits of a default port (web80:80, 10.0.0.43:443, node0).",
+    "C04": "Also: the custom backend's definitions with and without weights (an omitted weight is no weight).",
+    "C05": "Also: an earlier add repeated letter for letter after a del; weights that are multiples of ten in the rendering round trip.",
+    "C06": "Also: per-route transports (host= on https upstreams, tlsskipverify on/off) across table replacements and between routes; gRPC calls reach their own target when instances differ only in the port.",
+    "C07": "Also: the fronts listen through proxy.ListenAndServeHTTP; queries with ';' and other legal characters; 103 Early Hints before any final status.",
+    "C08": "Also: the Connection header on several lines; the client's X-Forwarded-For chain is kept in front of the peer (when another header is the client-IP header).",
+    "C10": "Also: on an https+tcp+sni listener wired as in main.go a name is tunnelled exactly while the table has a tcp route for it (route added, removed, added again between connections).",
+    "C11": "Also: sources without refresh whose first load fails (missing key, broken PEM, server unreachable) get their set as soon as a load succeeds; a certificate server that answers with 404/500/503 error pages removes nothing.",
+    "C12": "Also: rules and auth= next to a redirect option fabio cannot use.",
+    "C13": "Also: redirect routes delivered by the file and static backends ($path / $host are fabio's templates, also when such environment variables exist).",
+    "C14": "Also: proto=https host=<name> with / without tlsskipverify means the same whatever was registered before (per-route transport histories).",
+    "C15": "Also: a proto=prometheus listener with every accepted metrics.prometheus.path starts and serves the metrics there.",
+    "C17": "Also: proxy.gzip.contenttype given in file / plain env / FABIO_ env / command line with empty values switching it off again: the proxy built by newHTTPProxy compresses exactly when the effective expression says so.",
+    "C18": "Also: an agent that answers deregistrations with an error while aliases come and go and at DeregisterAll.",
+    "C19": "Also: a listener's rt (without wt) does not limit an upstream that answers inside the response-header timeout; uploads with Expect: 100-continue to a silent upstream get the 504 on time.",
+}
+for _k, _v in _ROUND7.items():
+    PROPS[_k]["rule"] += " " + _v
